@@ -181,8 +181,11 @@ def equilibrium(
         # method names are case-insensitive (as in get_method)
         method = method.lower()
     fwd_options["method"] = method
-    fwd_fcn = pfunc if method in _EQUIL_METHODS else new_fcn
-    alg_type = "equilibrium" if method in _EQUIL_METHODS else "rootfinder"
+    # only a name can select an equilibrium-specific method (a callable is
+    # not necessarily hashable)
+    is_equil_method = isinstance(method, str) and method in _EQUIL_METHODS
+    fwd_fcn = pfunc if is_equil_method else new_fcn
+    alg_type = "equilibrium" if is_equil_method else "rootfinder"
     return _RootFinder.apply(new_fcn, y0, fwd_fcn, alg_type, fwd_options, bck_options,
                              len(params), *params, *pfunc.objparams())
 
@@ -259,7 +262,8 @@ def minimize(
 
     # minimization can use rootfinder algorithm, so check if it is actually
     # using the optimization algorithm, not the rootfinder algorithm
-    opt_method = method not in _RF_METHODS.keys()
+    # (a callable is not necessarily hashable, so only look names up)
+    opt_method = not (isinstance(method, str) and method in _RF_METHODS)
 
     # the rootfinder algorithms are designed to move to the opposite direction
     # of the output of the function, so the output of this function is just
